@@ -144,7 +144,15 @@ def build(rng, T, mask, sign, kind=None, rel=0.02, prange=None, padding_ok=True,
         kind += ' x %g' % sc
         if ctx is not None:
             ctx.count('scaled_correlators')
-    entries = [lay.obs(rng, vals[t], rel) if mask[t] else None for t in range(T)]
+    rels = [rel] * T
+    if decorate and rng.random() < 0.3:
+        rels = [rel * float(rng.choice([0.03, 0.3, 1.0, 3.0, 30.0])) for _ in range(T)]      # errors differ by up to 1000 between timeslices
+        kind += ' with very different errors'
+    if decorate and rng.random() < 0.08:
+        vals = list(vals)
+        vals[int(rng.integers(0, T))] *= 1e-10                                               # tiny in ONE timeslice only
+        kind += ' with one tiny timeslice'
+    entries = [lay.obs(rng, vals[t], rels[t]) if mask[t] else None for t in range(T)]
     if decorate and zeros is not False and (zeros or rng.random() < 0.06):
         # central value exactly 0.0, fluctuations not (an observable minus its mean): checklist 16
         for t in range(T):
@@ -348,6 +356,27 @@ def judge_roots(ctx, A, c, mask, variant, guess=None):
         if not g.value >= 0:
             ctx.violation('%s:negative-mass' % label, dict(pat, t=t, returned=g.value))
             continue
+        # the central value is what scipy's solver returns for this equation, started from the same guess (a few ulp)
+        import scipy.optimize
+        Ff = np.cosh if kind == 'cosh' else np.sinh
+        with np.errstate(all='ignore'):
+            sol = scipy.optimize.fsolve(lambda x, d: Ff(x * a) / Ff(x * b) - d, 1.0 if guess is None else guess, ratio.value, full_output=True)
+        if sol[2] == 1:
+            ctx.count('judged:root-central-value-vs-solver')
+            m0 = float(sol[0][0])
+            ctx.close(g.value, abs(m0), 'value:%s:solver-value' % label, 't=%d of T=%d' % (t, T), rtol=1e-12,
+                      detail=dict(pat, t=t, a=a, b=b, ratio=ratio.value))
+            # fluctuations by the implicit-function rule: d|m| = sign(m) d(ratio) / (d/dm F(m a)/F(m b)), closed form of the derivative
+            dF = np.sinh if kind == 'cosh' else np.cosh
+            fp = (a * dF(m0 * a) * Ff(m0 * b) - b * Ff(m0 * a) * dF(m0 * b)) / Ff(m0 * b) ** 2
+            if fp != 0 and math.isfinite(fp):
+                sg, sr0 = base.snap(g), base.snap(ratio)
+                if sorted(sg['chains']) == sorted(sr0['chains']):
+                    for ch in sorted(sr0['chains']):
+                        ctx.count('judged:root-fluctuations-implicit-function')
+                        e = math.copysign(1.0, m0) * sr0['chains'][ch][1] / fp
+                        ctx.close(sg['chains'][ch][1], e, 'value:%s:implicit-function-fluctuations' % label, 't=%d chain %s' % (t, ch), rtol=1e-9,
+                                  detail=dict(pat, t=t, a=a, b=b, root=m0, slope=fp))
         back = refc.ratio_at(F, g, a, b)
         ctx.count('root_substitutions')
         rv, rd = magnitude(ratio)
@@ -436,9 +465,23 @@ def scale_invariance(ctx, rng, A, mask):
             ctx.violation('scale:m_eff.%s:undefined-timeslices-depend-on-scale' % v, {'scale': sc, 'unscaled': pa, 'scaled': pb})
             continue
         if v in MEFF_DIRECT:
+            # condition of the formula: a mass is a difference of log C, its fluctuation a difference of delta C / C of the timeslices
+            # it references - rounding is relative to the largest relative fluctuation of the input, not to the (possibly cancelling) result
+            relmax = 1e-2
+            for m_ in to_model(A):
+                if m_ is not None and m_[0][0].value != 0:
+                    relmax = max(relmax, magnitude(m_[0][0])[1] / abs(m_[0][0].value))
+            ca = refc.flat(to_model(A))
             for t, (x, y) in enumerate(zip(refc.flat(to_model(ra)), refc.flat(to_model(rb)))):
+                rt = 1e-12
+                if v == 'arccosh' and x is not None and 0 < t < len(ca) - 1:
+                    # arccosh'(z) = 1/sqrt(z^2 - 1): a rounding error of z (the two sides round s*C differently) is amplified by
+                    # z / (z^2 - 1) in the fluctuations when the argument is close to 1 (small masses)
+                    z = (ca[t + 1].value + ca[t - 1].value) / (2 * ca[t].value)
+                    if z > 1:
+                        rt *= max(1.0, 4 * z / (z * z - 1))
                 if x is not None and math.isfinite(x.value):
-                    same_scalar(ctx, y, x, 'scale:m_eff.%s' % v, 't=%d scale %g' % (t, sc), 1.0, 1e-2, rtol=1e-9)   # masses are O(1), their fluctuations O(relative noise)
+                    same_scalar(ctx, y, x, 'scale:m_eff.%s' % v, 't=%d scale %g' % (t, sc), 1.0, relmax, rtol=rt)   # masses are O(1), their fluctuations O(relative noise)
 
 
 # ------------------------------------------------------------------------------------------
@@ -542,7 +585,13 @@ def judge_plateau(ctx, A, c, mask, first, last, method, how, auto_gamma, np_rang
             return 0
         for ch in sorted(se['chains']):
             ctx.equal([int(i) for i in sg['chains'][ch][0]], [int(i) for i in se['chains'][ch][0]], 'value:%s:configuration-list' % label, what)
-            ctx.close(sg['chains'][ch][1], se['chains'][ch][1], 'value:%s:fluctuations' % label, what + ' chain ' + ch, rtol=1e-7, scale=ds)
+            ctx.close(sg['chains'][ch][1], se['chains'][ch][1], 'value:%s:fluctuations' % label, what + ' chain ' + ch, rtol=1e-11, scale=ds)
+        # secondary output: the error of the plateau (timeslices carry very different errors, so it is not the error of an average)
+        ctx.count('judged-secondary:plateau-error')
+        r2, e2 = copy.deepcopy(res), copy.deepcopy(exp)
+        r2.gamma_method()
+        e2.gamma_method()
+        ctx.close(r2.dvalue, e2.dvalue, 'value:%s:error-of-the-plateau' % label, what, rtol=1e-10)
     else:
         ctx.count('plateau_averages')
         exp = refc.plateau_average(c, first, last)
